@@ -13,6 +13,7 @@
    the evaluator, run in lock step on the two inputs. *)
 From Redact Require Import Bytes Tokens Utf8 Buffer Ops BufInv BufContent Fmt Value LBuf Printer Api.
 From Redact Require Import BufInvP BufContentP RedactNI SegNI FmtNI Hoare Keeps LeafP.
+From Redact Require Import FloatNI.
 From Coq Require Import String Lia ZArith.
 Import List ListNotations.
 Open Scope Z_scope.
@@ -34,6 +35,7 @@ Definition lrel (v1 v2 : value) : Prop :=
     | VInt t1 u1, VInt t2 u2 => t1 = t2 /\ irel u1 u2
     | VUint t1 u1, VUint t2 u2 => t1 = t2 /\ irel u1 u2
     | VStr t1 s1, VStr t2 s2 => t1 = t2 /\ srel s1 s2
+    | VFloat t1 z1 _, VFloat t2 z2 _ => t1 = t2 /\ z1 = z2
     | _, _ => False
     end)).
 
@@ -570,14 +572,16 @@ Section Rec.
     apply J_JS, J_badverb_call.
   Qed.
 
-  Lemma JfmtFloat bits size verb : J any (fmtFloat rec env bits size verb) (fmtFloat rec env bits size verb).
+  Lemma JfmtFloat b1 b2 size verb : JS (HS (b1 = b2)) any (fmtFloat rec env b1 size verb) (fmtFloat rec env b2 size verb).
   Proof.
     unfold fmtFloat.
-    assert (forall fc pr, J any (bracket start_unsafe (f <- getf ;; ws <- of_opt (fmt_float (orc env) f bits size fc pr) ;; wr ws))
-                                (bracket start_unsafe (f <- getf ;; ws <- of_opt (fmt_float (orc env) f bits size fc pr) ;; wr ws))) as Hgo
-      by (intros; apply (ubody_refl (fun f => fmt_float (orc env) f bits size fc pr))).
+    assert (forall fc pr, JS (HS (b1 = b2)) any (bracket start_unsafe (f <- getf ;; ws <- of_opt (fmt_float (orc env) f b1 size fc pr) ;; wr ws))
+                                (bracket start_unsafe (f <- getf ;; ws <- of_opt (fmt_float (orc env) f b2 size fc pr) ;; wr ws))) as Hgo.
+    { intros fc pr. ub_opt (fun f => fmt_float (orc env) f b1 size fc pr) (fun f => fmt_float (orc env) f b2 size fc pr).
+      - intros s1 s2 H Hv f. now rewrite (H Hv).
+      - intros f w1 w2 E1 E2. eapply fmt_float_rel; eassumption. }
     destruct (verb =? 118); [apply Hgo|]. destruct (isv verb "bgGxX"); [apply Hgo|].
-    destruct (isv verb "feE"); [apply Hgo|]. destruct (verb =? 70); [apply Hgo|]. apply J_badverb_call.
+    destruct (isv verb "feE"); [apply Hgo|]. destruct (verb =? 70); [apply Hgo|]. apply J_JS, J_badverb_call.
   Qed.
 
   Definition strel (s1 s2 : bytes) : Prop := s1 = s2 \/ srel s1 s2.
@@ -842,7 +846,7 @@ Section Rec.
       - eapply JS_weaken; [|apply (JfmtBool b b)]. intros ? ? _ _. reflexivity.
       - eapply JS_weaken; [|apply (JfmtInteger u u true verb); [now left | apply urel_pos; now left]]. intros ? ? _ _. reflexivity.
       - eapply JS_weaken; [|apply (JfmtInteger u u false verb); [now left | apply urel_pos; now left]]. intros ? ? _ _. reflexivity.
-      - apply JfmtFloat.
+      - eapply JS_weaken; [|apply (JfmtFloat bits bits size verb)]. intros ? ? _ _. reflexivity.
       - eapply JS_weaken; [|apply (JfmtString s s verb); now left]. intros ? ? _ _. reflexivity. }
     destruct Hc as [-> | (Hs & Hr & Hm)]; [apply J_JS, Hrefl, L1|].
     destruct v1, v2; try contradiction; cbn [leaf_fmt].
@@ -851,6 +855,7 @@ Section Rec.
       eapply JS_weaken; [|apply (JfmtInteger u u0 true verb Hu (urel_pos _ _ Hu))]. intros ? ? H Ho. specialize (H Ho). now injection H.
     - destruct (urel_of_lrel_uint _ _ _ _ Hl) as [_ Hu].
       eapply JS_weaken; [|apply (JfmtInteger u u0 false verb Hu (urel_pos _ _ Hu))]. intros ? ? H Ho. specialize (H Ho). now injection H.
+    - destruct Hm as [-> ->]. eapply JS_weaken; [|apply (JfmtFloat bits bits0 size0 verb)]. intros ? ? H Ho. specialize (H Ho). now injection H.
     - destruct (strel_of_lrel _ _ _ _ Hl) as [_ Hu].
       eapply JS_weaken; [|apply (JfmtString s s0 verb Hu)]. intros ? ? H Ho. specialize (H Ho). now injection H.
   Qed.
